@@ -44,6 +44,8 @@ Definition pbind {A B} (x : pres A) (f : A -> pres B) : pres B :=
 Notation "'plet' x <- a ; b" := (pbind a (fun x => b)) (at level 200, x pattern, a at level 100, b at level 200).
 
 Definition deep_fuel : nat := 64.
+(* values larger than this are outside the executable model (the evaluators would not finish) *)
+Definition big_value : nat := 200 * 100.
 
 (* ---------------------------------------------------------------- heap *)
 Fixpoint upd_nth {A} (n : nat) (x : A) (l : list A) : list A :=
@@ -351,10 +353,14 @@ Definition binary (o : binop) (x y : value) (w : world) : pres (value * world) :
   | Add =>
       match x, y with
       | VInt a, VInt b => ok (VInt (a + b))
-      | VStr a, VStr b => ok (VStr (a ++ b))
-      | VTuple a, VTuple b => ok (VTuple (a ++ b))
+      | VStr a, VStr b => if Nat.ltb big_value (String.length a + String.length b) then PUnsup "big-value"
+                          else ok (VStr (a ++ b))
+      | VTuple a, VTuple b => if Nat.ltb big_value (length a + length b) then PUnsup "big-value"
+                              else ok (VTuple (a ++ b))
       | VRef a, VRef b => match get_obj w a, get_obj w b with
-                          | Some (OList xs _), Some (OList ys _) => POk (alloc_list (xs ++ ys) w)
+                          | Some (OList xs _), Some (OList ys _) =>
+                              if Nat.ltb big_value (length xs + length ys) then PUnsup "big-value"
+                              else POk (alloc_list (xs ++ ys) w)
                           | _, _ => PErr end
       | _, _ => PErr
       end
@@ -558,7 +564,9 @@ Definition inplace_add (x y : value) (w : world) : pres (value * world) :=
               let w2 := release lock w1 in
               if negb (Nat.eqb n 0) then PErr
               else match get_obj w2 a with
-                   | Some (OList vs2 n2) => POk (x, put_obj w2 a (OList (vs2 ++ ys) n2))
+                   | Some (OList vs2 n2) =>
+                       if Nat.ltb big_value (length vs2 + length ys) then PUnsup "big-value"
+                       else POk (x, put_obj w2 a (OList (vs2 ++ ys) n2))
                    | _ => PErr end
           | PErr => binary Add x y w
           | PUnsup t => PUnsup t
